@@ -91,6 +91,8 @@ class Class:
         self.getters = {}  # property name -> Func
         self.setters = {}
         self.attrs = {}  # class-level assignments name -> ast expr
+        self.ann_fields = []  # annotated class-level names (name, default expr | None)
+        self.decorators = [ast.unparse(d) for d in node.decorator_list]
         self._mro = None
 
     @property
@@ -191,12 +193,22 @@ class Repo:
                     for t in m.targets:
                         if isinstance(t, ast.Name):
                             c.attrs[t.id] = m.value
+                elif isinstance(m, ast.AnnAssign) and isinstance(m.target, ast.Name):
+                    c.ann_fields.append((m.target.id, m.value))  # dataclass / NamedTuple fields in declaration order
+                    if m.value is not None:
+                        c.attrs[m.target.id] = m.value
         elif isinstance(node, (ast.FunctionDef, ast.AsyncFunctionDef)):
             mod.funcs[node.name] = Func(mod, node)
         elif isinstance(node, ast.Assign):
             for t in node.targets:
                 if isinstance(t, ast.Name):
                     mod.consts[t.id] = node.value
+                elif isinstance(t, (ast.Tuple, ast.List)) and isinstance(node.value, (ast.Tuple, ast.List)) and len(t.elts) == len(node.value.elts):
+                    for tt, vv in zip(t.elts, node.value.elts):  # A, B = "a", "b"
+                        if isinstance(tt, ast.Name):
+                            mod.consts[tt.id] = vv
+        elif isinstance(node, ast.AnnAssign) and isinstance(node.target, ast.Name) and node.value is not None:
+            mod.consts[node.target.id] = node.value
         elif isinstance(node, (ast.If, ast.Try)):
             for sub in ast.iter_child_nodes(node):
                 if isinstance(sub, ast.stmt):
